@@ -130,6 +130,16 @@ class Executor:
             res = j
             break
         if res is not None:
+            if res.pop("recycle", False):
+                # the executor keeps what a run leaked alive (it never frees behind the library's back); past a cap it
+                # retires after delivering its result and the next plan gets a new process
+                try:
+                    self.p.stdin.close()
+                    self.p.wait(timeout=20)
+                except Exception:
+                    self.p.kill()
+                self.errf.close()
+                self.p = None
             return res
         # the executor died
         code = self.p.wait()
